@@ -256,9 +256,9 @@ class IndentationFeatures(object):
         Number of points in indentation curve
         """
         # The size of the dataset does not depend on a fit (or on whether
-        # any fit property has been set already).
-        a_ind = self.datay_apr
-        num = a_ind.shape[0]
+        # any fit property has been set already, e.g. an axis for which
+        # there is no column).
+        num = int(np.sum(self.dataset["segment"] == 0))
         if num < 600:
             value = False
         else:
